@@ -601,7 +601,71 @@ def build_cases(chk):
     return cases
 
 
+SIMPLE_KEYS = ["a", "b", "c", "k1", "甲", "乙", "key"]
+
+
+def hist_case(rng):
+    """a dictionary with simple keys, copied (令乙 = 甲); keys removed / added / overwritten through one of the two names; then 生成JSON
+    of one of them: the members of THAT dictionary, in its own insertion order"""
+    keys = rng.sample(SIMPLE_KEYS, rng.randrange(2, 6))
+    d = [(k, rand_value(rng, 1)) for k in keys]
+    sides = {"甲": list(d), "乙": list(d)}
+    body = []
+    for _ in range(rng.randrange(1, 5)):
+        side = rng.choice(["甲", "乙"])
+        cur = sides[side]
+        r = rng.random()
+        if r < 0.4 and cur:
+            k = rng.choice(cur)[0]
+            body.append("以%s（移除：“%s”）" % (side, k))
+            sides[side] = [kv for kv in cur if kv[0] != k]
+        elif r < 0.75:
+            k = rng.choice([x for x in SIMPLE_KEYS + ["n1", "n2", "n3"] if x not in [kv[0] for kv in cur]] or ["zz"])
+            n = rng.randrange(100, 200)
+            body.append(rng.choice(["以%s（写入：“%s”、%d）", "%s#“%s” = %d"]) % (side, k, n))
+            sides[side] = cur + [(k, T_num(float(n)))]
+        elif cur:
+            k = rng.choice(cur)[0]
+            n = rng.randrange(200, 300)
+            body.append("%s#“%s” = %d" % (side, k, n))
+            sides[side] = [(kk, T_num(float(n)) if kk == k else vv) for kk, vv in cur]
+    which = rng.choice(["甲", "乙"])
+    return {"kind": "hist", "value": T_dict(d), "body": "\n".join(body), "which": which, "expect": T_dict(sides[which])}
+
+
+def check_hist(chk, c, o):
+    chk.count(["hist", c["value"], c["body"], c["which"]])
+    chk.dist("hist")
+    obs = impl_obs(o)
+    what = "令乙 = 甲; %s; （生成JSON：%s） with 甲 = %s" % (c["body"].replace("\n", "; "), c["which"], show_tree(c["value"]))
+    if abnormal(chk, c, obs, what):
+        return
+    if obs[0] != 1:
+        chk.violation("%s did not produce a text: %s" % (what, obs[:6]), "history:no-text", dict(replay_of(c), observed=obs[:200]))
+        return
+    text = obs[3:]
+    try:
+        py = py_loads_strict("".join(chr(x) for x in text))
+    except PyReject as e:
+        chk.violation("%s produced text that Python's json rejects (%s): %s" % (what, e, show_text(text)), "history:invalid-text",
+                      dict(replay_of(c), observed_text=text[:400]))
+        return
+    cls = diff_class(c["expect"], py)
+    if cls:
+        chk.violation("%s = %s, which a standard JSON parser reads back as %s; the dictionary holds %s (%s)" % (
+            what, show_text(text), show_tree(py), show_tree(c["expect"]), cls), "history:" + cls,
+            dict(replay_of(c), expected=c["expect"], observed_text=text[:400], read_back=py))
+
+
 def run(chk, replay=None):
+    if replay is not None and replay["case"].get("kind") == "hist":
+        c = replay["case"]
+        check_hist(chk, c, core.harness(HARNESS, "hist", [{"value": c["value"], "body": c["body"], "which": c["which"]}], timeout_ms=20000)[0])
+        return
+    if replay is None:
+        hs = [hist_case(chk.rng) for _ in range(40 if chk.tier == "quick" else 500)]
+        for c, o in zip(hs, core.harness(HARNESS, "hist", [{"value": c["value"], "body": c["body"], "which": c["which"]} for c in hs], timeout_ms=20000)):
+            check_hist(chk, c, o)
     if replay is not None:
         cases = [replay["case"]]
     else:
